@@ -308,6 +308,7 @@ class ImplRun(object):
         self.snaps = []          # per event: observable state AFTER the event (see snapshot())
         self.applied = []        # per event: a scripted client result was delivered to the producer by this event
         self.dishonest_at = None # index of the first event outside the honest environment (applied 12, or 13 1)
+        self.partitioner_builds = []   # (step, topic name, partition list) of every partitioner_class(topic, partitions) call
         api = {0: None, 1: 0, 2: "table"}[cfg["api"]]
         if api == "table":
             from afkak.common import ApiVersion
@@ -335,6 +336,8 @@ class ImplRun(object):
 
         class Recording(object):
             def __init__(self, topic, partitions):
+                # every construction of a partitioner by the producer is an observable call of the user's class
+                run.partitioner_builds.append((len(run.events), topic, list(partitions)))
                 self.inner = inner_cls(topic, partitions)
 
             def partition(self, key, partitions):
